@@ -368,6 +368,16 @@ func judgeSequential(w *proxyWorld, res *Result) {
 				if len(cons) > 1 && last.Hdr.Get("Range") == "" && (ex.Status != last.Status || !bytes.Equal(ex.Body, last.RespBody)) {
 					res.violate("C08.a", "retried-answer-not-relayed", "%s: the origin answered 416 and then %d (%d bytes) to the request repeated without Range; the client received %d with %d body bytes [%s]", desc, last.Status, len(last.RespBody), ex.Status, len(ex.Body), pd)
 				}
+				for _, c := range cons[1:] {
+					// the retry without Range was answered 200 in full: that is the client's answer, also when
+					// the cache cannot take it (then the proxy must not fall back to the refused request)
+					if c.Hdr.Get("Range") == "" && c.Status == 200 && !c.Aborted && first.Status == 416 && ex.Status == 416 {
+						if _, _, sat := refLenientRange(ex.Req.Range, int64(len(c.RespBody))); sat {
+							res.violate("C09.a", "416-although-the-retry-was-answered-200", "%s: the origin answered 416 and then 200 (%d bytes) to the request repeated without Range; the client received 416 [origin requests: %s] [%s]", desc, len(c.RespBody), originSummary(cons), pd)
+						}
+						break
+					}
+				}
 				if len(cons) == 1 && first.Status == 416 && (ex.Status != 416 || !bytes.Equal(ex.Body, first.RespBody)) {
 					res.violate("C08.a", "origin-416-not-relayed", "%s: the origin answered 416 (%d bytes), the client received %d with %d body bytes [%s]", desc, len(first.RespBody), ex.Status, len(ex.Body), pd)
 				}
